@@ -40,6 +40,12 @@ CHECKS = {
  'C12': dict(cat='exploration', tech='differential token-stream comparison (hook H1) against gcc cpp re-lexed by the reference lexer; online quiescence monitor (hook H2); IL equality between a macro-ised program and its expanded text',
              text='Generated macro sets (object-like, function-like with 0-4 parameters, variadic, # operator, mutual and self reference, #undef/#define histories) are invoked over free token sequences with nested, multi-line, parenthesised and string-containing arguments and function-like names without "("; the expanded token stream must equal gcc cpp\'s; H2 checks at every quiescent point that no macro is still marked as being expanded; valid programs are macro-ised and must compile to the same IL as their cpp-expanded text; benign/incompatible redefinitions are judged against gcc -pedantic-errors.',
              note='Units gcc cpp rejects (C11 pedantic) are skipped; nestings 6.10.3.4p4 leaves unspecified are not generated; the stringification defect K14 is recognised by its exact shape only.', ref='4/C12'),
+ 'C10': dict(cat='exploration', tech='catalogue-driven rejection monitor: every ill-formed template x placement context x benign surrounding is compiled and the triple (status, stdout, stderr) is judged; gcc -pedantic-errors guards each template',
+             text='About 330 ill-formed templates (constraint violations of declarations, types, expressions, statements, initialisers, literals, preprocessor directives, and constructs the tree documents as unsupported) are planted at file scope, in function bodies, nested blocks, loops/switches, after valid declarations, behind macros and before trailing garbage; each must give a non-zero status, a diagnostic on stderr and no module on stdout, never a crash or silent acceptance; valid controls must be accepted; the distinct diagnostic sites reached are counted against the error() sites in the sources.',
+             note='A template is only used if gcc -std=c11 -pedantic-errors rejects it too (others are listed as skipped). Three accepted constraint violations are recorded as known findings K15-K17.', ref='4/C10'),
+ 'C11': dict(cat='exploration', tech='trace checker over rendered token positions: the generator tracks the presumed (file, line, column) of every token under markers/#line/splices/comments; the first stderr line of the decorated run must name the location of the token the undecorated run blames',
+             text='Every catalogue violation is placed on a logical line of its own among filler lines and rendered plain (oracle: the diagnostic is on the violation line or on the one look-ahead token after a complete construct, column >= 1, file as given) and decorated with gcc line markers with flags, #line with and without file, backslash-newline between and inside tokens, block comments over several lines, line comments continued by a splice, newlines inside macro invocations, blank/pragma/null-directive lines, blank or spliced lines right after a marker, units split over up to three input files, stdin; the decorated diagnostic must carry exactly the presumed file and line of the same token.',
+             note='Columns are recorded (equal/differs) but not judged. Diagnostics whose text changes under decoration are skipped and listed (0 on the current tree).', ref='4/C11'),
  'C03': dict(cat='exploration', tech='online validator (re-implemented QBE parse/typecheck/SSA rules) over every accepted output; strace write-fault injection',
              text='Every module printed with exit status 0 (suite, corpus, generated, odd-shaped and mutated inputs, cproc\'s own sources; three targets) is parsed and checked by an independent IL validator; output faults are injected at the k-th write.',
              note='Trusted: vf.ilcheck (silent on the 159 stored .qbe files and the self-compiled IL); data sizes vs C objects are judged by C06/C07.', ref='4/C03'),
